@@ -528,6 +528,14 @@ impl<'a, 'tcx> Cx<'a, 'tcx> {
                 ("sub", self.pat(subpattern)),
                 ("cond", self.expr(*condition)),
             ]),
+            PatKind::Slice { prefix, slice, suffix } | PatKind::Array { prefix, slice, suffix } => J::obj(vec![
+                ("k", J::s("slice")),
+                t,
+                ("fixed", J::Bool(matches!(&p.kind, PatKind::Array { .. }))),
+                ("prefix", J::Arr(prefix.iter().map(|x| self.pat(x)).collect())),
+                ("rest", J::opt(slice.as_ref().map(|x| self.pat(x)))),
+                ("suffix", J::Arr(suffix.iter().map(|x| self.pat(x)).collect())),
+            ]),
             other => {
                 let name = format!("{:?}", other);
                 let name: String = name.chars().take_while(|c| c.is_alphanumeric()).collect();
